@@ -89,6 +89,22 @@ func arithParserStyle(style int) parsley.Parser {
 		))
 		return combinator.Sentence(text.Trim(&expr))
 	}
+	if style == 2 {
+		// the operators are terminal.Op tokens (another node type with its own start and end)
+		factor = combinator.Memoize(combinator.Any(
+			tok(terminal.Integer("int")),
+			combinator.SeqOf(tok(terminal.Op("(")), &expr, tok(terminal.Op(")"))).Bind(interpreter.Select(1)),
+		))
+		term = combinator.Memoize(combinator.Any(
+			combinator.SeqOf(&term, tok(combinator.Choice(terminal.Op("*"), terminal.Op("/"))), &factor).Bind(binop),
+			&factor,
+		))
+		expr = combinator.Memoize(combinator.Any(
+			combinator.SeqOf(&expr, tok(combinator.Choice(terminal.Op("+"), terminal.Op("-"))), &term).Bind(binop),
+			&term,
+		))
+		return combinator.Sentence(&expr)
+	}
 	factor = combinator.Memoize(combinator.Any(
 		tok(terminal.Integer("int")),
 		combinator.SeqOf(tok(terminal.Rune('(')), &expr, tok(terminal.Rune(')'))).Bind(interpreter.Select(1)),
